@@ -420,7 +420,10 @@ theorem removeFire_cases (s : Reg) (n : Name) :
   | some i =>
     by_cases hk : i.kind = .junction
     · cases hf : firePat i with
-      | none => exact Or.inr (Or.inl (by simp [hk, hf]))
+      | none =>
+        by_cases hh : hasFire i = true
+        · exact Or.inl (by simp [hk, hf, hh])
+        · exact Or.inr (Or.inl (by simp [hk, hf, hh]))
       | some p =>
         refine Or.inr (Or.inr ⟨i, p, rfl, hk, ?_⟩)
         simp only [hk, hf, ne_eq, not_true_eq_false, if_false, fireDrop_repaired, repaired_fireKeepsShared, if_true]
